@@ -43,9 +43,10 @@ DirExp(W, label) == IF DirectionalityOk(W, label) THEN "T" ELSE "F"
 \* the set of observables of a scalar run that disagree with the specification
 BadFieldsCp(e) ==
   LET W == World(e)  c == e.lo  o == e.obs  sg == SigRec(e)
-      a == 97  A == 65  R == 1488  AN == 1633 IN
+      a == 97  A == 65  R == 1488  AN == 1633
+      A6 == <<97, 97, 97, 97, 97, 97>>  A7 == <<97, 97, 97, 97, 97, 97, 97>>  A8 == <<97, 97, 97, 97, 97, 97, 97, 97>> IN
   {f \in {"id", "idc", "ff", "ffc", "reg", "regdom", "vir", "greek", "hebrew", "kana", "ld", "rd", "mdl", "mdr", "aidx", "eaidx", "own",
-          "wm1", "wm2", "wm3", "wm4", "wm5", "osp2", "nsp2", "osp3", "nsp3", "osp4", "lc1", "lc2", "lc3", "osp", "nsp", "bidi1", "bidi2", "bidi3", "bidi4", "bidi5",
+          "wm1", "wm2", "wm3", "wm4", "wm5", "osp2", "nsp2", "osp3", "nsp3", "osp4", "lc1", "lc2", "lc3", "lc4", "lc5", "wm6", "wm7", "osp5", "osp6", "nsp4", "nsp5", "osp", "nsp", "bidi1", "bidi2", "bidi3", "bidi4", "bidi5",
           "sigexc", "sigascii"} :
      CASE f = "id"  -> o.id  # Derived(sg, "Id")
        [] f = "idc" -> o.idc # Derived(sg, "Id")
@@ -77,6 +78,15 @@ BadFieldsCp(e) ==
        [] f = "lc1" -> ObsStr(e, o.lc[1]) # Ok(CaseMap(W, <<c>>))
        [] f = "lc2" -> ObsStr(e, o.lc[2]) # Ok(CaseMap(W, <<A, c>>))
        [] f = "lc3" -> ObsStr(e, o.lc[3]) # Ok(CaseMap(W, <<c, A>>))
+       \* inside 8-byte blocks of lower-case ASCII: first block, second block
+       [] f = "lc4"  -> ObsStr(e, o.blk[1]) # Ok(CaseMap(W, <<c>> \o A7))
+       [] f = "lc5"  -> ObsStr(e, o.blk[2]) # Ok(CaseMap(W, A8 \o <<c>> \o A7))
+       [] f = "wm6"  -> ObsStr(e, o.blk[3]) # Ok(WidthMap(W, <<c>> \o A7))
+       [] f = "wm7"  -> ObsStr(e, o.blk[4]) # Ok(WidthMap(W, A8 \o <<c>> \o A7))
+       [] f = "osp5" -> ObsStr(e, o.blk[5]) # Ok(PwSpaces(W, <<c>> \o A7))
+       [] f = "osp6" -> ObsStr(e, o.blk[6]) # Ok(PwSpaces(W, A8 \o <<c>> \o A7))
+       [] f = "nsp4" -> ObsStr(e, o.blk[7]) # Ok(NickSpaces(W, <<a, c>> \o A6))
+       [] f = "nsp5" -> ObsStr(e, o.blk[8]) # Ok(NickSpaces(W, A8 \o <<c>> \o A7))
        [] f = "osp" -> ObsStr(e, o.osp) # Ok(PwSpaces(W, <<a, c, a>>))
        [] f = "nsp" -> ObsStr(e, o.nsp) # Ok(NickSpaces(W, <<a, c, a>>))
        [] f = "bidi1" -> o.bidi[1] # DirExp(W, <<R, c>>)
